@@ -45,6 +45,8 @@ class Mappers:
             return o
         if "str" in data:
             return data["str"]
+        if "data" in data:      # to_dict() form of a plain string node
+            return data["data"]
         raise ValueError(f"cannot deserialize {data}")
 
     def ser_table(self, tree, ser):
